@@ -7,8 +7,8 @@ PROOF_PROPS = {
 }
 
 
-OTHER_PROPS = {"C11": "5/C11", "C17": "5/C17", "C18": "5/C18"}
-PROOF_PROPS.update({"C10": "5/C10", "C12": "5/C12"})
+OTHER_PROPS = {"C17": "5/C17", "C18": "5/C18"}
+PROOF_PROPS.update({"C10": "5/C10", "C12": "5/C12", "C11": "5/C11"})
 
 
 def c17_reload_monitor(tree):
